@@ -11,10 +11,10 @@ from concurrent.futures import ThreadPoolExecutor
 from ..gen import corrupt as K, histories as H, sqlite_factory as F
 from ..impl import dump as D
 from ..leanio.build import SDMODEL, LEAN
-from . import dbcommon as C, walindex as W
+from . import dbcommon as C, regexcost as RC, walindex as W
 
 ID = "C18"
-LEAN_MODULES = ["SqliteDissect.Properties.C18", "SqliteDissect.Properties.C06", "SqliteDissect.Properties.C16", "SqliteDissect.Properties.C18Scan", "SqliteDissect.Properties.C18Cost"]
+LEAN_MODULES = ["SqliteDissect.Properties.C18", "SqliteDissect.Properties.C06", "SqliteDissect.Properties.C16", "SqliteDissect.Properties.C18Scan", "SqliteDissect.Properties.C18Cost", "SqliteDissect.Properties.C18Regex"]
 RULE = ("well-formed factory databases (freelist, overflow chains, indexes, pointer maps, multi-level trees) whose every "
         "link / count / size field — located by parsing the clean file — is overwritten with adversarial values (self, "
         "parent, 0, 1, max, size+-1, random), plus pairs of such edits, truncations and random bit flips; each damaged "
@@ -141,6 +141,7 @@ def run(ctx, per_db_quick=130, per_db_thorough=600):
     try:
         r = ctx.rng
         ctx.differential(W.run_scan(ctx, sc), "walindex.scan")      # WAL-index (-shm) scan, read bound: harness/props/walindex.py
+        RC.run(ctx, sc)      # cost of the signature regular expression (finding C18-R1 and its two controls): harness/props/regexcost.py
         bases = []
         shapes = [dict(page_size=512, rows=150, churn=3, auto_vacuum=0, with_index=True, big_values=True),
                   dict(page_size=1024, rows=60, churn=2, auto_vacuum=1, with_index=True, big_values=True),
@@ -290,6 +291,12 @@ def search(ctx, broken):
 
 
 def replay(ctx, data):
+    if ((data.get("failure") or {}).get("case") or {}).get("regex_cost"):
+        sc = C.Scratch()
+        try:
+            return RC.run(ctx, sc)
+        finally:
+            sc.close()
     if ((data.get("failure") or {}).get("case") or {}).get("walindex"):
         return W.replay_scan(ctx, data)
     files = C.replay_files(data)
@@ -312,4 +319,4 @@ def replay(ctx, data):
     run(ctx, 40, 40)
 
 
-MATCHERS = {}
+MATCHERS = {"regex_blob_text_backtracking": RC.m_regex_blob_text_backtracking}
